@@ -694,7 +694,7 @@ def cfgq_enum(tier, seed):
     rlib, deps = build_gecs((), False)
     lab = build_macrolab()
     items, st = tlc_lines("MatchCfgMC", "SPECIFICATION Spec\nCONSTANTS\n  PoolSeq <- Pool3\n  MaxParams = 2\n  Preds <- TwoPreds\nINVARIANTS Export\nCHECK_DEADLOCK FALSE\n", "CFGQ")
-    macs = MACROS if tier == "thorough" else ["find", "iter_borrow", "iter_destroy"]
+    macs = MACROS
     reqs, index = [], []
     for ii, item in enumerate(items):
         body = render_world_body(item["decl"])
@@ -844,6 +844,15 @@ POSITIVES = [  # must compile: handles are Copy + Send + Sync whatever the compo
  ("cross_archetype_nested_mutability", "ecs_iter_borrow!(world, |a: &mut Ca| { a.0 += 1; ecs_iter_borrow!(world, |e: &Entity<Ab>, b: &mut Cb| { b.0 += 1; }); });"),
 ]
 
+AUTO_COMP = {"both": "u32", "sendonly": "std::cell::Cell<u32>", "synconly": "std::sync::MutexGuard<'static, u32>", "neither": "std::rc::Rc<u32>"}
+AUTO_SUBJ = {"world": "aw::TWorld", "archetype": "aw::Ta", "entity": "Entity<aw::Ta>", "direct": "EntityDirect<aw::Ta>"}
+
+def autotrait_src(item):
+    return ("#![forbid(unsafe_code)]\n#![allow(warnings)]\nuse gecs::prelude::*;\npub struct Comp(pub %s);\n"
+            "mod aw { use super::*; ecs_world! { ecs_name!(TWorld); ecs_archetype!(Ta, Comp); } }\n"
+            "fn assert_send<T: Send>() {}\nfn assert_sync<T: Sync>() {}\nfn assert_copy<T: Copy>() {}\n"
+            "fn main() { assert_%s::<%s>(); }\n" % (AUTO_COMP[item["class"]], item["trait"].lower(), AUTO_SUBJ[item["subject"]]))
+
 def special_src(body):
     return SPECIAL_PRELUDE + "fn main() {\n    let mut world = EcsWorld::new();\n    let e = world.create::<Aa>((Ca(1), Cb(2)));\n    let e2 = world.create::<Aa>((Ca(5), Cb(6)));\n    " + body + "\n}\n"
 
@@ -865,6 +874,9 @@ def client_corpus(tier, seed):
         jobs.append(("special", {"name": name, "role": "twin"}, special_src(twin), True, []))
     for name, body in POSITIVES:
         jobs.append(("positive", {"name": name}, special_src(body), True, []))
+    autos, st2 = tlc_lines("AutoTraitMC", "SPECIFICATION Spec\nINVARIANTS Export\nCHECK_DEADLOCK FALSE\n", "AUTOTRAIT", workers=1)
+    for it in autos:
+        jobs.append(("autotrait", it, autotrait_src(it), it["holds"], [] if it["holds"] else ["E0277"]))
     counts = {"forbidden": 0, "allowed": 0}
     def run(job):
         kind, desc, src, compiles, errs = job
@@ -883,7 +895,7 @@ def client_corpus(tier, seed):
             violations += res
     samples = [{"holder": p["h"], "intruder": p["i"], "order": p["order"], "compiles": p["compiles"], "err": p["err"]} for p in items[3::101][:3]]
     res = {"engine": "client", "tier": tier, "programs": len(jobs), "forbidden": counts["forbidden"], "allowed": counts["allowed"],
-           "pairs_from_model": len(items), "special_pairs": len(SPECIALS), "positives": len(POSITIVES), "traces": len(jobs),
+           "pairs_from_model": len(items) + len(autos), "autotrait_programs": len(autos), "special_pairs": len(SPECIALS), "positives": len(POSITIVES), "traces": len(jobs),
            "tlc_states": st.get("distinct", 0), "tlc_transitions": st.get("generated", 0),
            "violations": violations[:60], "n_violations": len(violations), "samples": samples,
            "wall_s": round(time.time() - t0, 1), "cached": False}
